@@ -1,0 +1,5 @@
+//go:build !verif
+
+package loadbalancer
+
+func vgate(string) {}
